@@ -134,7 +134,7 @@ func sliceAddrs(res jsonapi.Resource) map[string]uintptr {
 			}
 			rv = rv.Elem()
 		}
-		if rv.Kind() == reflect.Slice && rv.Len() > 0 {
+		if rv.Kind() == reflect.Slice && rv.Cap() > 0 { // also empty slices with spare capacity: append writes there
 			out[k] = rv.Pointer()
 		}
 	}
@@ -142,7 +142,7 @@ func sliceAddrs(res jsonapi.Resource) map[string]uintptr {
 		if r.ToOne {
 			continue
 		}
-		if ids, ok := res.Get(r.FromName).([]string); ok && len(ids) > 0 {
+		if ids, ok := res.Get(r.FromName).([]string); ok && cap(ids) > 0 {
 			out[k] = reflect.ValueOf(ids).Pointer()
 		}
 	}
@@ -198,7 +198,7 @@ func (m c18) Case(c *Ctx, r *RNG) {
 	}
 	nm := r.Range(1, 12)
 	var muts []c18mut
-	kinds := []string{"set", "set", "marshal", "filter", "inplace-bytes", "inplace-ids", "inplace-nbytes", "type-edit", "set-rel"}
+	kinds := []string{"set", "set", "marshal", "filter", "inplace-bytes", "inplace-ids", "inplace-nbytes", "type-edit", "set-rel", "append-set"}
 	for i := 0; i < nm; i++ {
 		mu := c18mut{Side: r.Intn(2), Kind: kinds[r.Intn(len(kinds))]}
 		switch mu.Kind {
@@ -229,6 +229,10 @@ func (m c18) Case(c *Ctx, r *RNG) {
 			mu.Field = []string{"bytes", "many", "extra", "one"}[r.Intn(4)]
 		}
 		muts = append(muts, mu)
+	}
+	if r.Chance(1, 6) {
+		first := r.Intn(2)
+		muts = append([]c18mut{{Side: first, Kind: "append-set"}, {Side: 1 - first, Kind: "append-set"}, {Side: first, Kind: "append-set"}}, muts...)
 	}
 	if c.Index < 2 {
 		c.Sample(map[string]any{"type": t, "resource": rs, "mutations": muts})
@@ -287,6 +291,16 @@ func (m c18) run(c *Ctx, t *TypeSpec, rs *ResSpec, muts []c18mut) {
 	var src, cp, fresh jsonapi.Resource
 	if pi := Guard(func() {
 		src = buildResource(t, rs)
+		if len(muts) > 0 && muts[0].Kind == "append-set" {
+			// the source holds EMPTY slices with spare capacity (ids[:0], buf[:0]): nothing to see, room to append
+			if t.Rel("many") != nil {
+				src.Set("many", make([]string, 0, 4))
+			}
+			if a := t.Attr("bytes"); a != nil && !a.Null {
+				src.Set("bytes", make([]byte, 0, 8))
+			}
+			c.Count("sources_with_empty_slices_with_capacity")
+		}
 		cp = src.(jsonapi.Copier).Copy()
 		fresh = src.(jsonapi.Copier).New()
 	}); pi != nil {
@@ -362,6 +376,19 @@ func (m c18) run(c *Ctx, t *TypeSpec, rs *ResSpec, muts []c18mut) {
 					b[0] ^= 0xff
 				} else {
 					applied = false
+				}
+			case "append-set":
+				// append to what Get returns and Set the result (uses spare capacity when there is some)
+				tag := fmt.Sprintf("appended-%d-%d", mu.Side, i)
+				if ids, ok := active.Get("many").([]string); ok {
+					active.Set("many", append(ids, tag))
+				} else if b, ok := active.Get("bytes").([]byte); ok {
+					active.Set("bytes", append(b, byte(i+1), byte(mu.Side)))
+				} else {
+					applied = false
+				}
+				if b, ok := active.Get("bytes").([]byte); ok && t.Rel("many") != nil {
+					active.Set("bytes", append(b, byte(i+1), byte(mu.Side)))
 				}
 			case "inplace-ids":
 				if ids, ok := active.Get("many").([]string); ok && len(ids) > 0 {
@@ -566,7 +593,53 @@ func (m c18) typeCopy(c *Ctx, t *TypeSpec) {
 	}
 }
 
+// staticCopies: struct types written in Go source (ID promoted from an embedded struct): Copy keeps ID and values.
+func (m c18) staticCopies(c *Ctx) {
+	n := int64(42)
+	for name, obj := range map[string]any{
+		"embedded-id":      &c20Embedded{C20Base: C20Base{ID: "x1"}, Name: "n", Many: []string{"b", "a"}},
+		"embedded-id-last": &c20EmbeddedLast{Name: &n, One: "o1", C20Base2: C20Base2{ID: "y2"}},
+	} {
+		c.Name = "static-" + name
+		var src, cp, fresh jsonapi.Resource
+		if pi := Guard(func() {
+			w := jsonapi.Wrap(obj)
+			src, cp, fresh = w, w.Copy(), w.New()
+		}); pi != nil {
+			c.Violate("panic@"+pi.Frame+"/"+panicClass(pi.Val)+"/copy/static-"+name, "%s", pi)
+			continue
+		}
+		var s0, s1, sf resSnap
+		if pi := Guard(func() { s0, s1, sf = snapshotRes(src), snapshotRes(cp), snapshotRes(fresh) }); pi != nil {
+			c.Violate("panic@"+pi.Frame+"/"+panicClass(pi.Val)+"/read-copy/static-"+name, "%s", pi)
+			continue
+		}
+		c.Count("static_struct_copies")
+		if d := s0.diff(s1); d != "" {
+			c.Violate("copy-differs/wrapped/"+s0.diffClass(s1)+"/static-"+name, "Copy() of a struct whose ID is promoted from an embedded struct differs from its source: %s", d)
+		}
+		if sf.ID != "" || sf.Type != s0.Type || sf.Attrs != s0.Attrs || sf.Rels != s0.Rels {
+			c.Violate("new-structure/wrapped/static-"+name, "New(): id %q type %q attrs %s rels %s, source type %q attrs %s rels %s", sf.ID, sf.Type, sf.Attrs, sf.Rels, s0.Type, s0.Attrs, s0.Rels)
+		}
+		// independence: the copy's ID and list do not follow the source
+		if pi := Guard(func() {
+			src.Set("id", "changed")
+			if _, ok := src.Rels()["many"]; ok {
+				src.Get("many").([]string)[0] = "mutated"
+			}
+		}); pi == nil {
+			var s2 resSnap
+			if pi := Guard(func() { s2 = snapshotRes(cp) }); pi == nil {
+				if d := s1.diff(s2); d != "" {
+					c.Violate("mutation-leaks/wrapped/static-"+name, "changing the source changed the copy: %s", d)
+				}
+			}
+		}
+	}
+}
+
 func (m c18) Directed(c *Ctx) {
+	m.staticCopies(c)
 	for _, wrapped := range []bool{false, true} {
 		t := TypeSpec{Name: "t", Wrapped: wrapped,
 			Attrs: []AttrSpec{{Name: "bytes", Kind: KBytes}, {Name: "nbytes", Kind: KBytes, Null: true}, {Name: "s", Kind: KString}},
